@@ -14,7 +14,7 @@ func evalJumpStmt(node *ast.JumpStmt, env *object.Env) object.PanObject {
 	val := Eval(node.Val, env)
 
 	if err, ok := val.(*object.PanErr); ok {
-		appendStackTrace(err, node.Source())
+		err = appendStackTrace(err, node.Source())
 		return err
 	}
 
